@@ -346,7 +346,12 @@ type Set struct {
 
 // NewSet builds the checkers the way cmd/go-critic does (NewContext, then NewChecker per info).
 func NewSet(fset *token.FileSet, infos []*linter.CheckerInfo) (*Set, error) {
-	s := &Set{Ctx: linter.NewContext(fset, Sizes), Infos: infos}
+	return NewSetSizes(fset, infos, Sizes)
+}
+
+// NewSetSizes is NewSet for a target whose type sizes are not the host's (GOARCH=386 ...).
+func NewSetSizes(fset *token.FileSet, infos []*linter.CheckerInfo, sizes types.Sizes) (*Set, error) {
+	s := &Set{Ctx: linter.NewContext(fset, sizes), Infos: infos}
 	for _, info := range infos {
 		c, err := linter.NewChecker(s.Ctx, info)
 		if err != nil {
